@@ -24,6 +24,7 @@ struct World {
     nodes: Vec<Option<Node<String>>>,
     nalloc: Vec<usize>,
     nvalue: Vec<String>, // per node allocation
+    nlocid: Vec<usize>,  // per node allocation: which span it was created with (a copy made by make_mut inherits it)
     ncount: Vec<usize>,
     spans: Vec<SourceSpan>,
 }
@@ -65,7 +66,7 @@ fn hash_of<T: Hash>(t: &T) -> u64 {
 impl World {
     fn new(k: usize) -> Self {
         let _ = spans();
-        World { hs: vec![], kind: vec![], alloc: vec![], text: vec![], loc: vec![], witness: vec![], weak: vec![], nodes: vec![], nalloc: vec![], nvalue: vec![], ncount: vec![], spans: spans_pool(k) }
+        World { hs: vec![], kind: vec![], alloc: vec![], text: vec![], loc: vec![], witness: vec![], weak: vec![], nodes: vec![], nalloc: vec![], nvalue: vec![], nlocid: vec![], ncount: vec![], spans: spans_pool(k) }
     }
     fn push(&mut self, h: H, kind: &'static str, alloc: usize, text: &str, loc: usize) {
         self.hs.push(h);
@@ -147,8 +148,11 @@ impl World {
             }
             "NodeNew" => {
                 let v = a.as_str().unwrap().to_string();
-                self.nodes.push(Some(Node::new(v.clone())));
+                // every node is created with a location: the id of its allocation picks the span
+                let locid = self.nvalue.len() + 1;
+                self.nodes.push(Some(Node::new_parsed(v.clone(), self.spans[(locid - 1) % self.spans.len()])));
                 self.nvalue.push(v);
+                self.nlocid.push(locid);
                 self.ncount.push(1);
                 self.nalloc.push(self.nvalue.len());
             }
@@ -178,6 +182,7 @@ impl World {
                     self.ncount[al - 1] -= 1;
                     self.nvalue.push(v);
                     self.ncount.push(1);
+                    self.nlocid.push(self.nlocid[al - 1]);      // the copy keeps the location (NameRc!MakeMut)
                     self.nalloc[n] = self.nvalue.len();
                 }
             }
@@ -245,6 +250,10 @@ impl World {
                 if **node != self.nvalue[al - 1] {
                     why.push(format!("step {step}: node {} reads {:?}, expected {:?}", n + 1, **node, self.nvalue[al - 1]));
                 }
+                let want = self.spans[(self.nlocid[al - 1] - 1) % self.spans.len()];
+                if node.location() != Some(want) {
+                    why.push(format!("step {step}: node {} location {:?}, supplied {:?}", n + 1, node.location(), want));
+                }
                 if node.get_mut().is_some() != (self.ncount[al - 1] == 1) {
                     why.push(format!("step {step}: node {} uniqueness (get_mut) disagrees with count {}", n + 1, self.ncount[al - 1]));
                 }
@@ -255,6 +264,11 @@ impl World {
                 if let (Some(a), Some(b)) = (&self.nodes[i], &self.nodes[j]) {
                     if a.ptr_eq(b) != (self.nalloc[i] == self.nalloc[j]) {
                         why.push(format!("step {step}: ptr_eq of nodes {} and {} disagrees", i + 1, j + 1));
+                    }
+                    // equality and hashing of nodes ignore locations
+                    let same = self.nvalue[self.nalloc[i] - 1] == self.nvalue[self.nalloc[j] - 1];
+                    if (a == b) != same || (same && hash_of(a) != hash_of(b)) {
+                        why.push(format!("step {step}: equality / hash of nodes {} and {} disagrees with their values", i + 1, j + 1));
                     }
                 }
             }
